@@ -37,6 +37,10 @@ def run(rep, tier, only=None):
             names.append(nm)
     L += ['def twin(d0: int) -> bool:', '    """', '    pre: 0 <= d0 < 8', '    post: _ == True', '    """', "    B.check(2, chr(92) + B.OCT[B.pin(d0, 8)])", '    return False', '']
     open(G, 'w').write('\n'.join(L))
-    runner.run_twin(rep, G, 'twin', 60, extra_path=[d])
-    runner.run_conditions(rep, G, [Cond(n, T) for n in names], extra_path=[d])
+    if not only or 'escapes' in only:
+        runner.run_twin(rep, G, 'twin', 60, extra_path=[d])
+        runner.run_conditions(rep, G, [Cond(n, T) for n in names], extra_path=[d])
+    if not only or 'strtab' in only:
+        from . import strtab
+        strtab.run(rep, tier, 'values')
     rep.sample(dict(condition='octal', token='backslash + 1..3 symbolic octal digits', kinds=['', 'u', 'b', 'c', 'f']))
